@@ -12,6 +12,10 @@ ENV = dict(os.environ, GOFLAGS="-mod=mod", GOPROXY="off", GOSUMDB="off")
 pid = sys.argv[1]
 arg = lambda k, d: (sys.argv[sys.argv.index(k) + 1] if k in sys.argv else d)
 N, SEED, WORKERS = int(arg("--n", 20)), int(arg("--seed", 1)), int(arg("--workers", 4))
+FAMILY = {"C01": "C02 C08 C07 C09", "C02": "C01 C08 C07 C09", "C07": "C08 C01 C02 C09 C17", "C08": "C01 C02 C07 C09 C05 C06", "C09": "C01 C02 C07 C08 C17",
+          "C05": "C08 C06 C16", "C06": "C05 C08 C16 C17", "C16": "C05 C06 C08", "C10": "C04 C11", "C11": "C04 C10", "C04": "C10 C11 C03 C13",
+          "C03": "C12 C13 C14 C04", "C12": "C03 C13 C04", "C13": "C03 C12 C04", "C14": "C03 C13", "C18": "C19", "C19": "C18", "C15": "", "C17": "C06 C05 C09", "C20": "C15"}
+OTHERS = FAMILY.get(pid, "").split() if "--family" in sys.argv else []
 props = {json.loads(l)["id"]: json.loads(l) for l in open(os.path.join(VERIF, "properties.jsonl"))}
 files = arg("--files", None)
 files = files.split(",") if files else [f for f in props[pid]["anchors"]["files"] if f.endswith(".go")]
@@ -77,6 +81,13 @@ def run_one(job):
     rules = sorted(set(re.findall(r"rules? ((?:[ITPR][A-Za-z]*_[A-Za-z0-9_]+ ?)+) violated", out)))
     rec.update({"exit": rc, "wall": round(time.time() - t0), "rules": rules,
                 "result": {0: "SURVIVED", 1: "KILLED"}.get(rc, "ERROR"), "tail": out[-400:] if rc not in (0, 1) else ""})
+    if rc == 0:
+        for o in OTHERS:   # the other properties of the family
+            rc2, out2 = sh("VERIF_REPO=%s ./vcheck %s --tier quick" % (wt, o), VERIF, 2400)
+            if rc2 == 1:
+                rec["result"], rec["killed_by"] = "KILLED", o
+                rec["rules"] = [o + ":"] + sorted(set(re.findall(r"rules? ((?:[ITPR][A-Za-z]*_[A-Za-z0-9_]+ ?)+) violated", out2)))
+                break
     return rec
 
 
